@@ -123,10 +123,11 @@ def hard_value(t, text):
     return text
 
 
-def ser_unit(types, instrs, tree, out, san):
-    """append the wire image of one unit to `out`; `san` = sanitisation mode the unit is entered with"""
+def ser_unit(types, instrs, tree, out, san, in_chunk=False):
+    """append the wire image of one unit to `out`; `san` = sanitisation mode the unit is entered with;
+    in_chunk = the unit's body is lexically inside a chunked section of its owner (case bodies)"""
     st = {"start": len(out), "missing": False}
-    ser_instrs(types, instrs, tree, out, san, st, scope_of(instrs, {}), False)
+    ser_instrs(types, instrs, tree, out, san, st, scope_of(instrs, {}), in_chunk)
 
 
 def ser_instrs(types, instrs, tree, out, san, st, scope, in_chunk):
@@ -203,12 +204,12 @@ def ser_instrs(types, instrs, tree, out, san, st, scope, in_chunk):
                 else:
                     if data is None or data["__case__"] != chosen[2]:
                         raise RefInvalid("case data of the wrong kind")
-                    ser_unit(types, chosen[3], data, out, san)
+                    ser_unit(types, chosen[3], data, out, san, in_chunk)
 
 
-def ref_serialize(types, instrs, tree, san):
+def ref_serialize(types, instrs, tree, san, lexical=False):
     out = []
-    ser_unit(types, instrs, tree, out, san)
+    ser_unit(types, instrs, tree, out, san, lexical)
     return out
 
 
@@ -247,12 +248,12 @@ def get_value(types, mr, t, length, is_padded, env):
     return mr.get_fixed_encoded_string(n, is_padded)
 
 
-def des_unit(types, instrs, mr):
+def des_unit(types, instrs, mr, in_chunk=False):
     old = mr.mode
     st = {"start": mr.pos}
     tree = {}
     try:
-        des_instrs(types, instrs, mr, tree, st, {}, False)
+        des_instrs(types, instrs, mr, tree, st, {}, in_chunk)
     finally:
         mr.set_mode(old)
     tree["__size__"] = mr.pos - st["start"]
@@ -340,7 +341,7 @@ def des_instrs(types, instrs, mr, tree, st, env, in_chunk):
                 chosen = default
             data = None
             if chosen is not None and len(chosen[3]) > 0:
-                data = des_unit(types, chosen[3], mr)
+                data = des_unit(types, chosen[3], mr, in_chunk)
                 data["__case__"] = chosen[2]
             tree[fld + "_data"] = data
 
@@ -358,10 +359,10 @@ def elem_size(types, t):
     return None
 
 
-def ref_deserialize(types, instrs, data, chunked):
+def ref_deserialize(types, instrs, data, chunked, lexical=False):
     mr = ModelReader(data)
     mr.set_mode(chunked)
-    tree = des_unit(types, instrs, mr)
+    tree = des_unit(types, instrs, mr, lexical)
     return tree, mr
 
 
